@@ -153,8 +153,10 @@ impl LangInterpreter for Italian {
             "settantuno" | "settantun" | "settantunesim" => b.put(b"71"),
             "settantotto" | "settantottesim" => b.put(b"78"),
             "ottanta" | "ottantesim" | "ttanta" | "ttantesim" => b.put(b"80"),
-            "ottantuno" | "ottantun" | "ottantunesim" => b.put(b"81"),
-            "ottantotto" | "ottantottesim" => b.put(b"88"),
+            "ottantuno" | "ottantun" | "ottantunesim" | "ttantuno" | "ttantun" | "ttantunesim" => {
+                b.put(b"81")
+            }
+            "ottantotto" | "ottantottesim" | "ttantotto" | "ttantottesim" => b.put(b"88"),
             "novanta" | "novantesim" => b.put(b"90"),
             "novantuno" | "novantun" | "novantunesim" => b.put(b"91"),
             "novantotto" | "novantottesim" => b.put(b"98"),
